@@ -195,15 +195,149 @@ class C01(Prop):
     design_ref = '§5 C01'
     rule = ('3..12 concurrent interactions of the five models started by either side, payload sizes 0..4 fragments (data and metadata), fragment size none/64/100, message and byte-stream framing '
             '(reads of 1..400 bytes), random delivery order between the two directions, publishers paced 1..3 elements per round, futures resolved late; non-trivial = at least one payload '
-            'spanning several fragments while another interaction is active; distinct = distinct case seed')
+            'spanning several fragments while another interaction is active; distinct = distinct case seed; plus a reconnecting client (1..3 reconnects after EOF / transport error / while healthy, from the harness or from on_close) with a fragmented peer request or response left half-received on the first stream ids when the connection goes away (the caller may have cancelled): the requests and responses of the next connection must arrive exactly as sent')
     assumptions = []
 
     def cases(self, rng, tier):
         n = 400 if tier == 'quick' else 5000
-        return [{'seed': rng.getrandbits(40), 'tcp': rng.random() < 0.5, 'frag': rng.choice([None, 64, 64, 100]), 'n': rng.randint(3, 12)} for _ in range(n)]
+        out = [{'seed': rng.getrandbits(40), 'tcp': rng.random() < 0.5, 'frag': rng.choice([None, 64, 64, 100]), 'n': rng.randint(3, 12)} for _ in range(n)]
+        # a reconnecting client: what the previous connection left half-received must not leak into the interactions of the next one
+        for _ in range(80 if tier == 'quick' else 2000):
+            out.append({'kind': 'reconnect', 'frag': 64, 'seed': rng.getrandbits(40), 'rounds': rng.randint(1, 3),
+                        'cut': [rng.choice(['peer-request', 'response-after-cancel', 'response', 'none']) for _ in range(3)],
+                        'cause': rng.choice(['eof', 'error', 'healthy']), 'via': rng.choice([None, 'plain', 'suspend']),
+                        'sizes': [rng.choice([1, 30, 100, 200]) for _ in range(6)], 'whole': rng.random() < 0.4,
+                        'before': [rng.random() < 0.4 for _ in range(3)]})
+        return out
 
     def run_impl(self, case):
+        if case.get('kind') == 'reconnect':
+            return detloop.run(self._reconnect, case)
         return detloop.run(self._scenario, case)
+
+    async def _reconnect(self, loop, case):
+        from harness import clientrun, simnet
+        from rsocket import frame as F
+        from rsocket.payload import Payload
+        from rsocket.request_handler import BaseRequestHandler
+        from rsocket.exceptions import RSocketTransportError
+        from rsocket.helpers import create_future
+        served = []
+
+        class H(BaseRequestHandler):
+            async def request_response(self, payload):
+                served.append(key(payload))
+                return create_future(Payload(b'ack' + (payload.data or b'')[:4]))
+        R = clientrun.ClientRun(loop, n_transports=case['rounds'] + 1, ka_ms=10_000_000, life_ms=100_000_000, handler_cls=H, fragment_size_bytes=case['frag'])
+        c = R.build()
+        await c.connect()
+        await loop.settle()
+
+        def frags(fr, size):
+            fr.fragment_size_bytes = size
+            out = []
+            while True:
+                f = fr.get_next_fragment(False)
+                if f is None:
+                    return out
+                out.append(f.serialize())
+                if not f.flags_follows:
+                    return out
+
+        def peer_request(sid, tag, dsize, msize, whole):
+            fr = F.RequestResponseFrame()
+            fr.stream_id = sid
+            fr.data, fr.metadata = bytes([tag]) * dsize, bytes([tag + 1]) * msize
+            return frags(fr, None if whole else 64), [fr.data.hex(), fr.metadata.hex()]
+
+        def peer_response(sid, tag, dsize, msize, whole):
+            fr = F.PayloadFrame()
+            fr.stream_id, fr.flags_complete, fr.flags_next = sid, True, True
+            fr.data, fr.metadata = bytes([tag]) * dsize, bytes([tag + 1]) * msize
+            return frags(fr, None if whole else 64), [fr.data.hex(), fr.metadata.hex()]
+
+        async def sid_of_last_request(t, n0):
+            req = [e for e in t.sent[n0:] if isinstance(e[2], F.RequestResponseFrame)]
+            return req[-1][2].stream_id if req else None
+        want_req, want_resp, got_resp = [], [], []
+        sz = case['sizes']
+        for rnd in range(case['rounds'] + 1):
+            t = R.transports[rnd]
+            tag = 10 + 20 * rnd
+            # 1. the interactions of this connection, complete: the peer asks, the client asks (a connection that is going to be lost may
+            # go straight to step 2, so that the half-received frame sits on the first stream id of either parity)
+            last = rnd == case['rounds']
+            peer_sid = 2
+            if last or case['before'][rnd % 3]:
+                blobs, w = peer_request(peer_sid, tag, sz[0], sz[1], case['whole'])
+                peer_sid += 2
+                want_req.append(w)
+                for b in blobs:
+                    t.deliver(b)
+                    await loop.settle()
+                n0 = len(t.sent)
+                fut = c.request_response(Payload(b'q%d' % rnd))
+                await loop.settle()
+                sid = await sid_of_last_request(t, n0)
+                if sid is not None:
+                    blobs, w = peer_response(sid, tag + 2, sz[2], sz[3], case['whole'])
+                    want_resp.append(w)
+                    for b in blobs:
+                        t.deliver(b)
+                        await loop.settle()
+                    got_resp.append(key(fut.result()) if fut.done() and not fut.cancelled() and fut.exception() is None else ['-', '-'])
+                else:
+                    want_resp.append(['no-request-frame', ''])
+                    got_resp.append(['-', '-'])
+            if last:
+                break
+            # 2. something is left half-received when the connection goes away
+            cut = case['cut'][rnd % 3]
+            if cut == 'peer-request':
+                blobs, _ = peer_request(peer_sid, tag + 4, 200, 100, False)
+                for b in blobs[:-1][:2]:
+                    t.deliver(b)
+                await loop.settle()
+            elif cut in ('response', 'response-after-cancel'):
+                n0 = len(t.sent)
+                f2 = c.request_response(Payload(b'x'))
+                await loop.settle()
+                sid2 = await sid_of_last_request(t, n0)
+                if sid2 is not None:
+                    blobs, _ = peer_response(sid2, tag + 6, 300, 100, False)
+                    t.deliver(blobs[0])
+                    await loop.settle()
+                    if cut == 'response-after-cancel':
+                        f2.cancel()
+                        await loop.settle()
+                        t.deliver(blobs[1])
+                        await loop.settle()
+            via = case['via'] if case['cause'] in ('eof', 'error') else None
+            if via:
+                R.reconnect_in_on_close = True
+                R.on_close_sleep_ms = 50 if via == 'suspend' else 0
+            nconnects = R.log.count('C')
+            if case['cause'] == 'eof':
+                t.deliver(simnet.EOF_MARK)
+                await loop.settle()
+            elif case['cause'] == 'error':
+                t.deliver(RSocketTransportError())
+                await loop.settle()
+            if via:
+                R.reconnect_in_on_close = False
+            else:
+                await c.reconnect()
+            for _ in range(200):
+                await asyncio.sleep(0)
+                if R.log.count('C') > nconnects:
+                    break
+            await loop.settle()
+            await loop.advance(100)
+        try:
+            await c.close()
+        except Exception:
+            pass
+        return {'want_req': want_req, 'got_req': served, 'want_resp': want_resp, 'got_resp': got_resp}
 
     async def _scenario(self, loop, case):
         from rsocket.rsocket_client import RSocketClient
@@ -294,6 +428,12 @@ class C01(Prop):
 
     def oracle(self, case, obs):
         fails = []
+        if case.get('kind') == 'reconnect':
+            if obs['got_req'] != obs['want_req']:
+                fails.append({'signature': 'request-payload-altered:after-reconnect', 'what': 'the peer sent the requests %s over the successive connections, the handler received %s' % (_short(obs['want_req']), _short(obs['got_req']))})
+            if obs['got_resp'] != obs['want_resp']:
+                fails.append({'signature': 'response-payloads-altered:after-reconnect', 'what': 'the peer answered %s over the successive connections, the callers received %s' % (_short(obs['want_resp']), _short(obs['got_resp']))})
+            return fails
         for s in (0, 1):
             o = 1 - s
             for pid, kind in obs['kinds'][s].items():
@@ -335,9 +475,16 @@ class C01(Prop):
         return fails
 
     def nontrivial(self, case, obs):
+        if case.get('kind') == 'reconnect':
+            return json.dumps(case, sort_keys=True)
         return str(case['seed']) if case['frag'] else None
 
     def stats(self, case, obs):
+        if case.get('kind') == 'reconnect':
+            yield 'kind=reconnect'
+            for c in case['cut'][:case['rounds']]:
+                yield 'left-half-received=' + c
+            return
         yield 'tcp=%s' % case['tcp']
         yield 'frag=%s' % case['frag']
         for s in (0, 1):
